@@ -1100,7 +1100,12 @@ def entry_verdict(otable, spec, r):
         return None, "not judged (%s)" % why, exp, why
     if exp is True and r["outcome"] != "complete":
         exc = r.get("server_exc") if r.get("server_exc") not in (None, "none") else r.get("client_exc")
-        return ("c19:compatible-pair-fails:%s-%s-%s" % (spec["entry"], VNAME[v], str(exc).replace(":", "-")),
+        key = "c19:compatible-pair-fails:%s-%s-%s" % (spec["entry"], VNAME[v], str(exc).replace(":", "-"))
+        if tuple(r["cset"]["maxVersion"]) >= (3, 4) and tuple(r["sset"]["maxVersion"]) >= (3, 4):
+            key = "c19:srp-anon-client-advertises-tls13"      # both ends also enable TLS 1.3, which has no such suites
+        elif why == "ok-plain-srp-only":
+            key = "c19:srp-server-with-certificate-refuses-plain-srp"
+        return (key,
                 "%s endpoints with validated settings that share version %s, a suite and parameters inside the client's "
                 "key-size limits [%d, %d] do not complete (client: %s, server: %s)"
                 % (spec["entry"], VNAME[v], r["cset"]["minKeySize"], r["cset"]["maxKeySize"], r.get("client_exc"),
@@ -1141,7 +1146,8 @@ def multipsk_verdict(table, spec, r):
         return None, "ok", must, why
     if r["outcome"] != "complete":
         exc = r.get("server_exc") if r.get("server_exc") not in (None, "none") else r.get("client_exc")
-        return ("c19:compatible-pair-fails:tls13-multipsk-%s" % str(exc).replace(":", "-"),
+        return ("c19:psk-hash-mismatch-no-certificate-fallback" if why == "certificate-fallback-for-unfitting-psk"
+                else "c19:compatible-pair-fails:tls13-multipsk-%s" % str(exc).replace(":", "-"),
                 "TLS 1.3 endpoints that share a suite and %s do not complete (client offered %s, server holds %s; client: %s, "
                 "server: %s)" % ("a PSK of the suite's hash" if sel != "none" else "a certificate path",
                                  [p["identity"] for p in spec["client_psks"]], [p["identity"] for p in spec["server_psks"]],
@@ -1226,9 +1232,9 @@ def run(ctx):
                        "documented domains are the literals in harness/props/c19.py and Tls.Settings.InDomain",
                        "pair expectation: the version is negotiated first (highest common), everything else for it; pairs that "
                        "are compatible only at a lower common version, DHE without a common RFC 7919 group, an ECDSA certificate "
-                       "on a curve the client did not list, RSA key transport without any common signature scheme, SRP / anonymous "
-                       "clients that also enable TLS 1.3, a certificate-holding SRP server sharing only plain SRP suites, and a "
-                       "client offering a server-known PSK whose hash fits none of its suites are run but not judged",
+                       "on a curve the client did not list, RSA key transport without any common signature scheme, and a TLS 1.3 client "
+                       "whose own key-size limits exclude an ffdhe share it offers are run but not judged",
+                       "SRP and anonymous entry points speak TLS 1.2 and earlier only, whatever the client's settings enable",
                        "key-size limits are inclusive (documentation: parameters smaller than minKeySize / larger than maxKeySize "
                        "are refused)"]
     rn = Runner(ctx)
